@@ -65,6 +65,7 @@ impl Check for C06 {
             max_chunks: 2000,
             scs_pct: 8,
             nonminimal_ok: true,
+            many_one_in: 300,
         };
         let f = foreign::gen_foreign(rng, &cfg);
         let wire = f.wire();
